@@ -42,7 +42,7 @@ PROBES = [
     "export_raised_both", "mixed_directions", "labella_options_differ",
     "export_multilayer", "export_ge_3_layers", "export_with_lineSpacing",
     "abort_inside_export", "abort_inside_construct", "peer_failed_inside_construct",
-    "export_to_path_written_before",
+    "export_to_path_written_before", "poked_between_exports",
 ]
 
 RULE = (
@@ -304,6 +304,8 @@ def gen_plan(rng, tier):
             if fault and fault["kind"] in ("disk_copy", "peer_exit", "peer_missing"):
                 build_pdf = True  # place the fault inside an operation that reaches the peer
             ops.append(["export_file", i, "/simfs/out%d_%d%s" % (i, fileno, ext), build_pdf, fault])
+        elif r < 0.69:
+            ops.append(["poke", i])
         elif r < 0.75:
             ops.append(["construct", i])  # a new object from the same spec
         elif r < 0.85:
@@ -456,6 +458,31 @@ def _run(plan):
                 bump("fault:clock_jump:fired")
                 bump("probe:clock_crossed_midnight_between_ops")
             bump("simulated_seconds", op[1])
+        elif kind == "poke":
+            # the user calls helpers and reads attributes between exports; nothing
+            # here may change what any timeline exports later
+            i = op[1]
+            if objs[i] is None:
+                outcome = "skipped"
+            else:
+                tl = objs[i]
+                bump("probe:poked_between_exports")
+                try:
+                    tl.get_nodes()
+                    tl.compute()
+                    tl.getInnerDims()
+                    for it in tl.items[:3]:
+                        tl.timePos(it.data)
+                        repr(it)
+                    tl.nodes, tl.renderer, tl.items, dict(tl.options)
+                    sc = tl.options["scale"]
+                    sc.domain(), sc.range()
+                    list(sc.ticks())
+                except Exception as e:
+                    outcome = "raise:" + type(e).__name__
+                for j in range(n):
+                    if j != i and objs[j] is not None:
+                        foreign[j] += 1
         elif kind == "replace":
             i = op[1]
             specs[i] = copy.deepcopy(op[2])
